@@ -173,7 +173,8 @@ def eval_triple(repo, it, triple, tier):
                 if p not in cone:
                     cone.add(p)
                     stack.append(p)
-    vary = [c for c in leaves_all if c in cone or c in ('incident_energy', 'final_energy')]
+    # the target itself may be supplied (a supplied coordinate takes precedence, also where the graph has no rule for it)
+    vary = [c for c in leaves_all if c in cone or c == target or c in ('incident_energy', 'final_energy')]
     if tier == 'thorough':
         vary = list(leaves_all)
     fixed_extra = [e for e in extras if e in cone]
